@@ -45,7 +45,8 @@ COMPONENTS = {"real": ["redress.circuit.CircuitBreaker", "redress.policy.Policy/
               "stub": ["clock (SimClock)", "event loop (SimLoop)", "operation/classifier/abort_if (scripted)", "RefBreaker is the oracle"]}
 ASSUMPTIONS = ["a failure recorded while OPEN is ignored (statement silent; model mirrors the code)",
                "single-threaded: the breaker's method log is a total order", "sampling, not proof"]
-BUDGETS = {"quick": (30000, 40), "thorough": (2000000, 280)}
+INTERLEAVING_MEASURE = "distinct (scenario, ready-order choice sequence) pairs among concurrent async scenarios"
+BUDGETS = {"quick": (90000, 90), "thorough": (2400000, 285)}
 
 
 def gen(seed, tier="quick"):
@@ -119,7 +120,8 @@ def execute(scn):
         faults[k] = faults.get(k, 0) + n
     res = {"violations": viol, "shape": common.shape_of(scn, env.trace, env) + ((tuple(info.get("choices") or ()),) if scn.get("concurrent") else ()),
            "nontrivial": nt, "faults": faults, "probes": probes, "sim_us": info["sim_us"], "digest": digest(env.trace), "runs": 1,
-           "states": list(states), "schedule": info.get("choices")}
+           "states": list(states), "schedule": info.get("choices"),
+           "interleaving": (scn.get("seed"), tuple(info.get("choices") or ())) if scn.get("concurrent") else None}
     if nt:
         res["sample"] = common.sample_of(scn, env.trace, 40)
     return res
